@@ -28,14 +28,16 @@ Proof.
   assert (Hp : P match class_of W s with
                  | SNode => (set_slot st s (BMod (node_module s))) <| st_has_node := true |>
                  | SPass => set_slot st s (BExternal false)
+                 | SNpm r => st <| st_npm := st_npm st ++ [{| ni_spec := s; ni_req := r; ni_range := range; ni_dyn := in_dyn |}] |>
                  | SBad => set_slot st s (BErr (BBadSpecifier s range))
                  | SUrl => queue_load st s range asset in_dyn root attr count
                  end).
-  { destruct (class_of W s); [apply P_queue; exact H | | |]; (eapply P_ext; [| | | |exact H]; reflexivity). }
+  { destruct (class_of W s); [apply P_queue; exact H | | | |]; (eapply P_ext; [| | | |exact H]; reflexivity). }
   assert (Hp' : P (if has_key s (st_redirects st) then set_slot st s (BErr (BLoad s range 1))
                    else match class_of W s with
                         | SNode => (set_slot st s (BMod (node_module s))) <| st_has_node := true |>
                         | SPass => set_slot st s (BExternal false)
+                        | SNpm r => st <| st_npm := st_npm st ++ [{| ni_spec := s; ni_req := r; ni_range := range; ni_dyn := in_dyn |}] |>
                         | SBad => set_slot st s (BErr (BBadSpecifier s range))
                         | SUrl => queue_load st s range asset in_dyn root attr count
                         end)).
